@@ -755,18 +755,57 @@ def r9(ctx, sp):
             rep.ok('C20.R9', 'flexscan: every path that sets %s = true also assigns %s (read under %s at scan.l:%s)' % (g_, p_, g_, loads[0].line))
     return n
 
+# ------------------------------------------------------------------ R10
+
+def r10(ctx):
+    """R10: the last output filter drops lines only when it can tell generated code from user code.  In
+    filter_fix_linedirs() every path from one fgets() to the next that does not write the line (the blank-line squeeze)
+    must be control dependent on ctrl.gen_line_dirs: the filter recognises generated code by the line directives it
+    passes, and with -L / %option noline there are none, so a squeeze would remove blank lines from the user's code."""
+    rep = ctx.rep; prog = ctx.flex
+    f = prog.fn('filter_fix_linedirs')
+    if f is None: rep.broken('filter_fix_linedirs not found')
+    res = ir.Resolver(f); cfg = prog.cfg(f, cut=False)
+    F = [c for c in f.ins if c.op == 'call' and c.callee == 'fgets']
+    P = [c for c in f.ins if c.op == 'call' and c.callee in ('fputs', 'fwrite', 'fprintf') and any(res.loc(a) == ('global', 'stdout') or (f.def_of(a) is not None and f.def_of(a).op == 'load' and res.loc(f.def_of(a).ops[0]) == ('global', 'stdout')) for a in c.ops if a[0] == 'reg')]
+    if len(F) != 1 or not P: rep.broken('C20.R10: filter_fix_linedirs has %d fgets calls and %d writes to stdout' % (len(F), len(P)))
+    F = F[0]
+    after_read = set(y.blk for y in cfg.reach(F, avoid=P))
+    back_to_read = set(b for b in f.blocks if F in cfg.reach_from_block(b, avoid=P) or F in b.ins)
+    after_write = set(y.blk for p_ in P for y in cfg.reach(p_, avoid=[F]))
+    skip = [b for b in f.blocks if b in after_read and b in back_to_read and b not in after_write and b is not F.blk]
+    # blocks on a path read -> read that bypasses the write, excluding those that can still reach the write
+    skip = [b for b in skip if not any(p_ in cfg.reach_from_block(b, avoid=[F]) for p_ in P)]
+    GLD = ('field', 'ctrl_bundle_t', 'gen_line_dirs')
+    key = 'C20.R10:filter.c:filter_fix_linedirs:line-dropped-without-line-directives'
+    if not skip:
+        rep.ok('C20.R10', 'filter_fix_linedirs: every line read is written (no squeeze)'); return 1
+    bad = []
+    for b in skip:
+        locs = set()
+        for br, t in cfg.control_deps_closure(b):
+            for d, l in flow.cond_loads(f, br, res): locs.add(ir.loc_class(l))
+        if GLD not in locs: bad.append(b)
+    if bad:
+        rep.fail('C20.R10', key, where(bad[0].ins[0]), 'filter_fix_linedirs drops a line (blank-line squeeze) on a path that does not depend on ctrl.gen_line_dirs: with -L there are no line directives to tell '
+                 'generated code from user code, and blank lines of the user\'s code are removed', replay_input='flex -L on a file whose %{ %} block or section 3 contains three consecutive blank lines')
+    else:
+        rep.ok('C20.R10', 'filter_fix_linedirs: the %d block(s) that skip the write are control dependent on ctrl.gen_line_dirs' % len(skip))
+    return 1
+
 def run(ctx):
     rep = ctx.rep
     sp = lex.parse_spec(ctx.art.source('scan.l'))
     rep.require(len(sp.rules) >= 250, 'scan.l model has only %d rules' % len(sp.rules))
     rep.setcount('scan_l_rules', len(sp.rules))
-    r1(ctx); r2(ctx, sp); r3(ctx, sp); r4(ctx); r5(ctx, sp); r6(ctx, sp); r7(ctx); r8(ctx, sp); r9(ctx, sp)
+    r1(ctx); r2(ctx, sp); r3(ctx, sp); r4(ctx); r5(ctx, sp); r6(ctx, sp); r7(ctx); r8(ctx, sp); r9(ctx, sp); r10(ctx)
     rep.floor('C20.R1', 2, 'line_directive_out + the %top trampoline')
     rep.floor('C20.R2', 60, 'raw-echo rule x copying start condition pairs')
     rep.floor('C20.R3', 8, 'entry rules + 2 cross-module openers + section 3')
     rep.floor('C20.R4', 1, 'lineno in filter_fix_linedirs')
     rep.floor('C20.R6', 6, 'pushed start conditions of scan.l')
     rep.floor('C20.R7', 1, 'set_input_file')
+    rep.floor('C20.R10', 1, 'the squeeze of filter_fix_linedirs')
     rep.floor('C20.R9', 1, 'doing_codeblock / indented_code')
     rep.floor('C20.R8', 150, 'rules active in the 7 pushed start conditions + rules with a path that stays in its start condition')
     rep.floor('C20.R5', 250, 'one obligation per non-EOF rule of scan.l')
